@@ -20,7 +20,7 @@ COMPONENTS = {
 }
 ASSUMPTIONS = ['needles of >= 10 bytes; shorter file names are covered by the fixed path component every recorded path contains',
                'algorithm settings in config are public by design']
-PROBES = ['delete', 'clean', 'nonces', 'needles', 'exists_lied', 'foreign_unencrypted_repository_in_cache', 'addkey_output_file_existing']
+PROBES = ['delete', 'clean', 'nonces', 'needles', 'exists_lied', 'foreign_unencrypted_repository_in_cache', 'addkey_output_file_existing', 'cli_add_key', 'cli_verbose']
 TIERS = {'quick': {'budget_s': 70, 'batch': 10}, 'thorough': {'budget_s': 900, 'batch': 20}}
 ORACLES = ('store', 'secrecy')
 
@@ -45,6 +45,7 @@ def gen_case(seed, tier):
             u['N'] = rng.choice([1, 1, 2])
     case['foreign_cache'] = substream(seed, 'c05-cache').random() < 0.3
     case['key_output'] = substream(seed, 'c05-keyout').random() < 0.3
+    case['cli'] = substream(seed, 'c05-cli-on').random() < 0.25
     return case
 
 
@@ -74,10 +75,47 @@ def _foreign_cache(H):
     H.probe('foreign_unencrypted_repository_in_cache')
 
 
+def _cli_add_key(H):
+    """add-key through replicat's real command-line entry point, with raised verbosity and optionally -o:
+    what it prints on stdout is an observation point like any other."""
+    from sim import cli
+    from sim.core import substream
+    W, case = H.W, H.case
+    rng = substream(case['sched_seed'], 'c05-cli')
+    owner = H.clients[0]
+    kf = W.dir / 'owner.key'
+    kf.write_bytes(owner.key)
+    argv = ['add-key', '-r', 'simstore:universe', '-q', '--no-cache', '-c', '2', '-p', owner.password.decode(), '-K', kf,
+            '-n', 'cli ' + owner.password.decode()[::-1]]
+    argv += rng.choice([[], ['--shared'], ['--clone']])
+    if '--clone' in argv:
+        del argv[argv.index('-n'):argv.index('-n') + 2]
+    argv += rng.choice([['-v'], ['-vv'], ['-vv'], []])
+    out = None
+    if rng.random() < 0.5:
+        out = W.dir / 'cli-new.key'
+        argv += ['-o', out]
+    argv += ['--encryption.kdf.name', 'scrypt', '--encryption.kdf.n', '4']     # (the shipped scrypt work factor takes seconds)
+    r = cli.run_cli(W, argv)
+    if r.status != 'ok':
+        raise RuntimeError(f'CLI add-key failed in harness: {r.status} {r.exc!r} {r.stderr[-300:]}')
+    H.stdouts.append(('add-key via the CLI (' + ' '.join(a for a in map(str, argv) if a.startswith('-')) + ')', r.stdout))
+    if out is not None and out.exists():
+        H.extra_outputs.append(('key file written by the CLI', out.read_bytes()))
+    H.probe('cli_add_key')
+    if '-v' in argv or '-vv' in argv:
+        H.probe('cli_verbose')
+
+
 def run_case(case):
     H = history.History(case, 'c05', ORACLES)
+    steps = []
     if case.get('foreign_cache'):
-        H.post_setup = _foreign_cache
+        steps.append(_foreign_cache)
+    if case.get('cli'):
+        steps.append(_cli_add_key)
+    if steps:
+        H.post_setup = lambda h: [f(h) for f in steps]
     return H.run()
 
 
